@@ -1037,6 +1037,8 @@ run_s14(void *arg)
 	vh_fini();
 }
 
+#include "sendrace.h"
+
 static void
 explore(const char *name, void (*fn)(void *), void *arg, int p, int t, int sw,
     int total)
@@ -1111,6 +1113,8 @@ main(int argc, char **argv)
 	explore("S13-streamdial-cancel-redial-tcp", run_s13, (void *) 0, 1, 1, 2, 2);
 	explore("S13-streamdial-cancel-redial-ipc", run_s13, (void *) 1, 1, 1, 2, 2);
 	// (about 250 choice points per execution: one deviation quick, two thorough)
+	for (int pr = 0; pr < NS15P; pr++)
+		sr_explore("C02", pr, T);
 	explore("S14-wsdial-cancel", run_s14, (void *) 0, 1, 1, 1, T ? 2 : 1);
 	explore("S14-wsdial-progress-cancel", run_s14, (void *) 1, 1, 1, 1, T ? 2 : 1);
 	explore("S4-ctxrecv-reply", run_s4, (void *) 0, p, t, sw, tot);
